@@ -9,6 +9,12 @@
 //!       `C01:pixels-vs-draw:thick-line`); that `draw` is ONE `draw_iter` call with the same pixel
 //!       SEQUENCE is validated in the check of C01 only, as `C01:tie-hypothesis:line-draw-is-one-draw_iter`.
 //!
+//!   thick.skips x0 y0 x1 y1 w  -> `skL skR n`: the `Extra` perpendicular steps `ParallelsIterator::next_parallel` takes
+//!                                 without returning a parallel on the left / right side, and the number of parallels,
+//!                                 of `ParallelsIterator::new(line, w, StrokeOffset::None)` run to its end - computed by the
+//!                                 port `joins_port::skipped_extras` (the iterator is private). These are the counters the
+//!                                 band oracle discounts with; the model computes them with `Thick.skipTotals`
+//!                                 (EG/Model/ThickSkips.lean), the counters of the theorem `thick_band_with_skipped_discount`.
 //!   thick.bbox x0 y0 x1 y1 w   -> `bounding_box()` of the same styled line (`styled_bounding_box`,
 //!       i.e. `Line::extents(w, StrokeOffset::None)`), as `x,y,w,h`; compared with
 //!       `Thick.styledBoundingBox`. Oracle `C02:line-bbox-contains-pixels` (counts for C02 only):
@@ -369,7 +375,9 @@ impl Module for M {
          <= 1000 with w in 1..=40) and wide strokes w in 13..=120 (fixed witnesses of the known finding \
          C17:thick-band:wide-stroke-overcount, 16 octant variants at w = 40, seeded random lines up to 300 px: axis-parallel, \
          diagonal, slopes 0.4..0.7, steep/flat, arbitrary; 120 quick / 3000 thorough); counters thick:w=.. (widths above 12 in \
-         buckets), thick:wide; non-trivial = width >= 2; distinct = distinct op text. \
+         buckets), thick:wide; non-trivial = width >= 2; distinct = distinct op text. thick.skips (skipped Extra steps per side + number \
+         of parallels, port vs model): every (dx,dy) in [-10,10]^2 (thorough [-24,24]^2) x widths 0,1,4,9,21,33,34,60,128 and every wide \
+         stroke above; counters thick:skips, thick:skips:some-step-skipped (= non-trivial). \
          C02/C07/C19 (joins): ALL polylines with 2 and 3 vertices on a 5x5 lattice crossing the axes with irregular spacing \
          (x in -4,-1,0,2,6; y in -5,-2,0,1,3; repeated vertices, reversals and colinear triples included; thorough 6x6) x widths \
          2..=5 (C19: width 1; thorough 2,3,5,7), a seeded sample of 4/5-vertex ones (arbitrary, closed-looking, self-overlapping, \
@@ -452,10 +460,21 @@ impl Module for M {
             let (x0, y0) = (rng.range(-20000, 20000) - dx / 2, rng.range(-20000, 20000) - dy / 2);
             emit(format!("thick.points {} {} {} {} {}", x0, y0, x0 + dx, y0 + dy, 1 + i % 3));
         }
+        // the skipped-step counters of the band oracle's discount (port) against the model's `skipTotals`:
+        // every direction of a grid x narrow .. very wide strokes, and every wide stroke below
+        let rs = if tier == Tier::Quick { 10 } else { 24 };
+        for dx in -rs..=rs {
+            for dy in -rs..=rs {
+                for w in [0u32, 1, 4, 9, 21, 33, 34, 60, 128] {
+                    emit(format!("thick.skips 2 -3 {} {} {}", 2 + dx, -3 + dy, w));
+                }
+            }
+        }
         // wide strokes (w in 13..=120): the known finding C17:thick-band:wide-stroke-overcount shows from
         // w = 34; every other claim of the sentence is checked on them as well
         for (x0, y0, x1, y1, w) in WIDE_FIXED {
             emit(format!("thick.points {} {} {} {} {}", x0, y0, x1, y1, w));
+            emit(format!("thick.skips {} {} {} {} {}", x0, y0, x1, y1, w));
         }
         for (sx, sy) in [(1, 1), (1, -1), (-1, 1), (-1, -1)] {
             for (a, b) in [(20, 12), (12, 20), (30, 14), (9, 17)] {
@@ -496,6 +515,7 @@ impl Module for M {
             };
             let w = rng.range(13, 120);
             emit(format!("thick.points {} {} {} {} {}", x0, y0, x0 + dx, y0 + dy, w));
+            emit(format!("thick.skips {} {} {} {} {}", x0, y0, x0 + dx, y0 + dy, w));
         }
     }
 
@@ -584,6 +604,19 @@ impl Module for M {
                     }
                 }
                 pts_digest(&px)
+            }
+            "thick.skips" => {
+                let s = t.point();
+                let e = t.point();
+                let w = t.u32();
+                let (skl, skr, n) = joins_port::skipped_extras(((s.x as i64, s.y as i64), (e.x as i64, e.y as i64)), w);
+                ctx.count("thick:skips");
+                if skl + skr > 0 {
+                    ctx.count("thick:skips:some-step-skipped");
+                    ctx.nontrivial(op);
+                }
+                // (the iterator is private: the port is what the band oracle uses; the stream ties it to the model)
+                format!("{} {} {}", skl, skr, n)
             }
             "thick.bbox" => {
                 let s = t.point();
